@@ -170,10 +170,14 @@ Definition remove_session_sub (sid : N) (acc : broker * N * list out) (subid : N
   | Some s =>
       let s' := mkSub (sub_id s) (sub_topic s) (sub_match s) (nremove sid (sub_subs s)) in
       let del := match sub_subs s' with [] => negb (has_history b subid) | _ => false end in
+      (* as for an UNSUBSCRIBE: on_unsubscribe, then on_delete when the subscription went away *)
       if del then
         let b1 := del_subscription b s' in
-        (b1, pg + 1, o ++ sub_meta_event b1 t_sub_on_delete sid (pg + 1) [vid sid; vid subid])
-      else (b_set_subs b (nset (b_subs b) subid s'), pg, o)
+        (b1, pg + 2, o ++ sub_meta_event b1 t_sub_on_unsubscribe sid (pg + 1) [vid sid; vid subid]
+                       ++ sub_meta_event b1 t_sub_on_delete sid (pg + 2) [vid sid; vid subid])
+      else
+        let b1 := b_set_subs b (nset (b_subs b) subid s') in
+        (b1, pg + 1, o ++ sub_meta_event b1 t_sub_on_unsubscribe sid (pg + 1) [vid sid; vid subid])
   end.
 
 Definition broker_remove_session (b : broker) (pg : N) (sid : N) : broker * N * list out :=
